@@ -312,7 +312,7 @@ def run(ctx):
     ctx.rule = ('per message class: Hypothesis histories of 1-4 sends of the SAME message object through '
                 'Association.send with field changes and data set attached/removed between sends (objects '
                 'constructed normally or from a decoded command set), plus UIDs of every length 1..64 in every '
-                'UID field; the C-STORE-RQ storage_scu builds from a file name (meta information with / without instance UID, with / without pixel data); the concatenated command fragments of every send are parsed by the independent '
+                'UID field; the C-STORE-RQ storage_scu builds from a file name (meta information with / without instance UID, with / without pixel data); data sets in file-like objects handed over while positioned at their end / still empty and rewound before the send, copies (copy / deepcopy / pickle) of messages; the concatenated command fragments of every send are parsed by the independent '
                 'reader; non-trivial = >=2 sends, an odd-length UID or a data-set toggle; distinct by history')
     ctx.assumptions = ['zero-length optional elements are accepted as well-formed',
                        'command dictionary and command-field codes transcribed from PS3.7 (vf/refcmd.py)']
